@@ -140,7 +140,7 @@ func runC14(c *Ctx) {
 				return false
 			}
 			for _, st := range s.States {
-				if st.Dir == types.RecvOnly && ex(st.Chan) == "time.After(gomavlib.reconnectPeriod)" {
+				if cs := ex(st.Chan); st.Dir == types.RecvOnly && (cs == "time.After(gomavlib.reconnectPeriod)" || cs == "time.NewTimer(gomavlib.reconnectPeriod).C") {
 					return true
 				}
 			}
